@@ -680,6 +680,24 @@ def str_trim(e, c, a):
         if not e.branch(r):
             return none()
         return some(Slice(sl.cell, sl.path, lo + n, hi) if m == "strip_prefix" else Slice(sl.cell, sl.path, lo, hi - n))
+    if len(a) > 1 and isinstance(deref_all(e, a[1]) if isinstance(a[1], Ref) else a[1], (Slice, VecObj)) and \
+            len(e.seq_of(deref_all(e, a[1]) if isinstance(a[1], Ref) else a[1])[0][slice(*e.seq_of(deref_all(e, a[1]) if isinstance(a[1], Ref) else a[1])[1:])]) > 1:
+        # string pattern of several bytes: repeated removal of the whole pattern (std semantics of trim_*_matches(&str))
+        pat = deref_all(e, a[1]) if isinstance(a[1], Ref) else a[1]
+        pl, plo, phi = e.seq_of(pat); pb = pl[plo:phi]; n = len(pb)
+
+        def at(k):
+            r = True
+            for j in range(n):
+                r = b_and(r, e.binop("Eq", l[k + j], pb[j]))
+            return r
+        if m in ("trim_start_matches", "trim_matches"):
+            while hi - lo >= n and e.branch(at(lo)):
+                lo += n
+        if m in ("trim_end_matches", "trim_matches"):
+            while hi - lo >= n and e.branch(at(hi - n)):
+                hi -= n
+        return Slice(sl.cell, sl.path, lo, hi)
     if len(a) > 1:
         pred = _sep_pred(e, a[1])
     else:
@@ -1032,8 +1050,8 @@ def vec_from_iter(e, c, a):
 
 @model(r"impl \[.*\]>::sort(_unstable)?$|impl \[.*\]>::sort(_unstable)?_by::<|impl \[.*\]>::sort(_unstable)?_by_key::<|impl \[.*\]>::sort_by_cached_key::<|radix_sort_unstable|RadixSort")
 def slice_sort(e, c, a):
-    """Specification-level sort: the result is the sorted permutation (insertion by the real comparison,
-    stable — every std/rdst sort used here is either stable or sorts keys without satellite data)."""
+    """Specification-level sort: the result is the sorted permutation (insertion by the real comparison); stable sorts keep
+    the order of equal elements, unstable sorts leave it to an engine choice when the elements are distinguishable."""
     l, lo, hi = e.seq_of(a[0])
     items = l[lo:hi]
     if "by_key" in c or "cached_key" in c:
@@ -1049,6 +1067,21 @@ def slice_sort(e, c, a):
         while pos > 0 and cmpf(order[pos - 1], i) > 0:
             pos -= 1
         order.insert(pos, i)
+    if "unstable" in c and "radix" not in c.lower():
+        # an unstable sort leaves elements that compare equal in an UNSPECIFIED order: when such elements are distinguishable
+        # (satellite data), their order is an engine choice (identity / reversed / rotated), not the stable one
+        out, i = [], 0
+        while i < len(order):
+            j = i + 1
+            while j < len(order) and cmpf(order[j - 1], order[j]) == 0:
+                j += 1
+            run = order[i:j]
+            if len(run) > 1 and not all(e.branch(values_eq(e, items[run[0]], items[x])) for x in run[1:]):
+                alts = [run, run[::-1]] + ([run[1:] + run[:1]] if len(run) > 2 else [])
+                run = alts[e.choose(len(alts))]
+                e.notes["sort_unstable"] = "order of distinguishable equal-key elements is a free choice (identity, reversed, rotated)"
+            out += run; i = j
+        order = out
     l[lo:hi] = [items[i] for i in order]
     return UNIT
 
